@@ -163,7 +163,7 @@ func main() {
 			}
 			// the driver's state-set reduction must not change any verdict
 			if d != nil && err == nil && rej != "overflow" && res.Evaluations%3 == 0 {
-				rej0, _, _, err0 := include(d, "fixed reduce=0", o.Trace, false)
+				rej0, _, _, err0 := include(d, "fixed reduce=0 eager=0", o.Trace, false)
 				switch {
 				case err0 != nil:
 					res.Note("model driver failed: " + err0.Error())
@@ -171,7 +171,7 @@ func main() {
 				case rej0 == "overflow":
 					res.Hit("reduction-crosscheck:unreduced-overflow")
 				case (rej0 == "") != (rej == ""):
-					res.Disagree("driver reduction: reduced and unreduced state-set simulation must give the same verdict", cr, "reduced: "+rej, "unreduced: "+rej0)
+					res.Disagree("driver reductions (state merging, eager internal steps): reduced and unreduced state-set simulation must give the same verdict", cr, "reduced: "+rej, "unreduced: "+rej0)
 				default:
 					res.Hit("reduction-crosscheck:agree")
 				}
